@@ -20,13 +20,23 @@ fn part(k: Kind, n: usize) -> Result<Ind, Failure> {
     Ind::build(k, &Params::one(n)).map_err(|_| Failure { signature: "C15:harness".into(), detail: "HARNESS part build".into() })
 }
 
+/// a case whose composite is built with Default::default() (its cfg holds the documented defaults)
+#[derive(Clone, Debug, Serialize, Deserialize)]
+pub struct DCase {
+    pub case: Case,
+}
+
 pub fn check(c: &Case, ctx: &mut Ctx) -> Result<(), Failure> {
+    check_with(c, ctx, false)
+}
+
+pub fn check_with(c: &Case, ctx: &mut Ctx, via_default: bool) -> Result<(), Failure> {
     let k = c.cfg.kind;
     let name = k.name();
     let p = c.cfg.params();
     let n = c.cfg.n();
     let m = p.m;
-    let mut comp = Ind::build(k, &p).map_err(|_| Failure { signature: "C15:harness".into(), detail: "HARNESS build".into() })?;
+    let mut comp = if via_default { Ind::default_of(k) } else { Ind::build(k, &p).map_err(|_| Failure { signature: "C15:harness".into(), detail: "HARNESS build".into() })? };
     // public parts
     let mut sma = part(Kind::Sma, n)?;
     let mut sd = part(Kind::Sd, n)?;
@@ -45,6 +55,7 @@ pub fn check(c: &Case, ctx: &mut Ctx) -> Result<(), Failure> {
     c.cfg.fp(&mut fp);
     fp.u(c.scalar as u64);
     let mut asym = false;
+    let mut cci_recent: Vec<[u64; 3]> = vec![];
     let (mut checked, mut ill) = (0u64, 0u64);
     let mut bitexact = 0u64;
     for i in 0..len {
@@ -127,8 +138,17 @@ pub fn check(c: &Case, ctx: &mut Ctx) -> Result<(), Failure> {
                 let tp = (bar.h + bar.l + bar.c) / 3.0;
                 let a = sma.next_scalar(tp).x();
                 let d = mad.next_scalar(tp).x();
+                cci_recent.push([bar.h.to_bits(), bar.l.to_bits(), bar.c.to_bits()]);
                 if d == 0.0 {
-                    cmp.push(("cci", out.v[0], 0.0, 0.0));
+                    // exactly zero deviation by the harness's own evaluation of (h+l+c)/3: decisive only if
+                    // the window's bars are identical — two different bars whose typical prices coincide in
+                    // one evaluation order may differ by an ulp in another, and CCI is discontinuous there
+                    let w0 = cci_recent.len() - cci_recent.len().min(n);
+                    if cci_recent[w0..].iter().all(|x| *x == cci_recent[w0]) {
+                        cmp.push(("cci", out.v[0], 0.0, 0.0));
+                    } else {
+                        ill += 1;
+                    }
                 } else {
                     let cc = big / d;
                     if cc <= 1e6 {
@@ -176,7 +196,10 @@ fn strategy(lo: usize, hi: usize) -> BoxedStrategy<Case> {
             .prop_flat_map(move |cfg| {
                 let dom = if matches!(cfg.kind, Kind::Ppo | Kind::SlowStoch) { Domain::Positive } else { Domain::AnySign };
                 let n = cfg.n();
-                (Just(cfg), multi_stream(dom, lo, (4 * n + 40).max(lo).min(hi)))
+                let pos = dom == Domain::Positive;
+                // the Bollinger half-width is judged on the variance scale, and M^2 is not representable at huge units
+                let cfg_is_bb = cfg.kind == Kind::Bb;
+                (Just(cfg), prop_oneof![12 => multi_stream(dom, lo, (4 * n + 40).max(lo).min(hi)), 1 => stream(if cfg_is_bb { Domain::TinyAnySign } else if pos { Domain::Huge } else { Domain::HugeScalar }, lo, (4 * n + 40).max(lo).min(hi)), 1 => stream(if pos { Domain::TinyNormal } else { Domain::TinyAnySign }, lo, (4 * n + 40).max(lo).min(hi))])
             })
             .prop_map(|(cfg, s)| Case { cfg, scalar: true, xs: xs(&s.vals), bars: vec![] }),
         cfg_among(&BK, 512, multiplier_any)
@@ -196,6 +219,26 @@ pub fn run(g: &mut Global) {
     if g.tier == Tier::Thorough {
         g.random("long", 800, &|| strategy(4000, 10000), &check);
     }
+    // composites obtained through Default::default() against parts built with the documented default
+    // parameters (a Default assembled from its parts' own defaults would carry other periods)
+    const DK: [(Kind, bool); 10] = [(Kind::Bb, true), (Kind::SlowStoch, true), (Kind::SlowStoch, false), (Kind::Atr, false), (Kind::Macd, true), (Kind::Ppo, true), (Kind::Kc, false), (Kind::Kc, true), (Kind::Ce, false), (Kind::Cci, false)];
+    let seedd = g.seed;
+    g.exhaustive(
+        "defaults",
+        10 * 4,
+        &move |i| {
+            let (kind, scalar) = DK[(i % 10) as usize];
+            let dp = kind.default_params();
+            let cfg = Cfg { kind, p: dp.p[..kind.n_periods()].to_vec(), m: X(dp.m) };
+            let mut gen = crate::props::c13::Gen::new(seedd ^ (i + 1).wrapping_mul(0x9E3779B97F4A7C15), [0usize, 3, 1, 4][(i / 10) as usize % 4], 3.7, 5);
+            if scalar {
+                DCase { case: Case { cfg, scalar: true, xs: (0..200).map(|_| X(gen.next())).collect(), bars: vec![] } }
+            } else {
+                DCase { case: Case { cfg, scalar: false, xs: vec![], bars: (0..200).map(|_| gen.bar()).collect() } }
+            }
+        },
+        &|d: &DCase, ctx: &mut Ctx| check_with(&d.case, ctx, true),
+    );
     // sleep and wake (see hist::sleep_wake_bars): the composite and its parts must also agree on the bar on
     // which activity resumes after the averages have decayed through the subnormal range
     let seed1 = g.seed;
